@@ -1,7 +1,7 @@
 (* Tie/TedTie.v — tie of the label predicates of the Python cost model (Ted/Cost.v) to the Go source by decision tables.
 
    The translator (translator/gen_ted.go via the interpreter translator/goeval.go) evaluates the functions
-     isStructuralNode, isControlFlowNode, isExpressionNode, isLiteralNode, isIdentifierNode, isTopLevelDefinition,
+     isStructuralNode, isControlFlowNode, isExpressionNode, isLiteralNode, isIdentifierNode, isTopLevelDefinition, IsBoilerplateLabel,
      areRelatedNodeTypes, areSameCategory, getNodeTypeMultiplier, calculateLabelSimilarity
    of internal/analyzer/apted_cost.go on a label universe (every string literal of that file, each with one letter
    more / one letter less / in lower case, plus a few strangers) and writes the results into Gen/TedTables.v.
@@ -34,6 +34,7 @@ Definition ted_tables_agree : bool :=
   forallb (row1 isLiteralNode) isLiteralNode_table &&
   forallb (row1 isIdentifierNode) isIdentifierNode_table &&
   forallb (row1 isTopLevelDefinition) isTopLevelDefinition_table &&
+  forallb (row1 IsBoilerplateLabel) IsBoilerplateLabel_table &&
   forallb (row2 areRelatedNodeTypes) areRelatedNodeTypes_table &&
   forallb (row2 areSameCategory) areSameCategory_table &&
   forallb mult_row getNodeTypeMultiplier_table &&
@@ -42,7 +43,7 @@ Definition ted_tables_agree : bool :=
 Definition ted_tables_nonempty : bool :=
   forallb (fun n => Nat.leb 20 n)
     [List.length isStructuralNode_table; List.length isControlFlowNode_table; List.length isExpressionNode_table; List.length isLiteralNode_table;
-     List.length isIdentifierNode_table; List.length isTopLevelDefinition_table; List.length areRelatedNodeTypes_table;
+     List.length isIdentifierNode_table; List.length isTopLevelDefinition_table; List.length IsBoilerplateLabel_table; List.length areRelatedNodeTypes_table;
      List.length areSameCategory_table; List.length getNodeTypeMultiplier_table; List.length calculateLabelSimilarity_table].
 
 Lemma ted_tables_agree_ok : ted_tables_agree = true /\ ted_tables_nonempty = true.
